@@ -12,12 +12,16 @@
    the texts of the entity that is served.
 
    Results: find_entity = store_get through the abstraction; md_certs = store_certs (same list, same
-   order, same de-duplication) whenever store_certs answers; both say "unknown" together; the ONLY
-   disagreement is the KeyError store_certs raises for a use-matching KeyDescriptor without X509Data
-   (CertSelect skips such a descriptor) - characterised exactly, with a witness.  On top: the certificate
-   selection of _check_signature over the C16 store itself (KeyError swallowed into "no certificates", as
-   sigver.py does), its equality with CertSelect.check_signature under the X509Data side condition, and
-   the C03 statement carried down to the loaded metadata documents. *)
+   order, same de-duplication), and both say "unknown" together: ONE function (md_certs_eq).  On top: the
+   certificate selection of _check_signature over the C16 store itself (KeyError swallowed into "no
+   certificates", as sigver.py does) equals CertSelect.check_signature, and the C03 statement is carried
+   down to the loaded metadata documents.
+
+   Both models follow the library WITH proposed_fix/C03-1 (certs() skips a key descriptor without
+   X509Data).  Before that repair certs() raised KeyError for a use-matching KeyDescriptor without
+   X509Data (MdStore.store_certs_before_fix; CertSelect.md_certs_before_fix) while Model/CertSelect.v as
+   it then was skipped the descriptor: that former disagreement is characterised exactly
+   (md_certs_before_fix_keyerror), with the witness and its consequences for _check_signature. *)
 From PV Require Import Lib.Base Model.Sigver Proofs.Sigver_lemmas.
 From PV Require Model.CertSelect Model.MdStore Model.IssuerSel Proofs.CertSelect_lemmas Proofs.MdStore_lemmas Proofs.IssuerSel_lemmas.
 Module CS := PV.Model.CertSelect.
@@ -51,7 +55,7 @@ Definition served_text (st : MS.store) (i : str) (c : str) : Prop :=
 (* a role descriptor of one of the types certs(.., any, ..) visits *)
 Definition any_role (r : MS.role) : Prop := exists d, In d MS.ANY_ROLES /\ MS.r_type r = MS.descr_key d.
 
-(* every key descriptor certs(i, any, use) would read has X509Data *)
+(* every key descriptor certs(i, any, use) would read has X509Data (only the code BEFORE proposed_fix/C03-1 cares) *)
 Definition x509_complete (use : str) (st : MS.store) (i : str) : Prop :=
   forall e r k, MS.store_get st i = Some e -> In r (MS.e_roles e) -> any_role r -> In k (MS.r_keys r) ->
                 MS.use_ok use k = true -> MS.kd_certs k <> [].
@@ -110,21 +114,19 @@ Lemma use_matches_abs num use k : CS.use_matches use (abs_kd num k) = MS.use_ok 
 Proof. reflexivity. Qed.
 
 (* extract_certs over one descriptor type *)
-Lemma extract_loop_abs P num use : inj_on P num -> forall ks res l,
+Lemma extract_loop_abs P num use : inj_on P num -> forall ks res,
   (forall k c0, In k ks -> In c0 (MS.kd_certs k) -> P (MS.repack_cert c0)) -> (forall x, In x res -> P x) ->
-  MS.extract_loop use ks res = Ok l ->
-  CS.extract_certs use (map (abs_kd num) ks) (map num res) = map num l.
+  CS.extract_certs use (map (abs_kd num) ks) (map num res) = map num (MS.extract_loop use ks res).
 Proof.
-  intros Hinj. induction ks as [|k ks IH]; intros res l Hks Hres H; cbn [MS.extract_loop map CS.extract_certs] in *.
-  - now injection H as <-.
+  intros Hinj. induction ks as [|k ks IH]; intros res Hks Hres; cbn [MS.extract_loop map CS.extract_certs] in *.
+  - reflexivity.
   - rewrite use_matches_abs. destruct (MS.use_ok use k) eqn:Eu.
-    + destruct (MS.is_nil (MS.kd_certs k)); [discriminate|].
-      assert (forall x, In x (map MS.repack_cert (MS.kd_certs k)) -> P x) as Hk.
+    + assert (forall x, In x (map MS.repack_cert (MS.kd_certs k)) -> P x) as Hk.
       { intros x Hx. apply in_map_iff in Hx as (c0 & <- & Hc0). apply (Hks k c0); [now left|exact Hc0]. }
       cbn [abs_kd CS.kd_certs]. rewrite (add_new_abs P num Hinj _ _ Hk Hres).
-      apply IH; [intros k' c0 Hk' Hc0; apply (Hks k' c0); [now right|exact Hc0]| |exact H].
+      apply IH; [intros k' c0 Hk' Hc0; apply (Hks k' c0); [now right|exact Hc0]|].
       intros x Hx. apply MSL.add_new_fold_In in Hx as [Hx|Hx]; [now apply Hres|now apply Hk].
-    + apply IH; [intros k' c0 Hk' Hc0; apply (Hks k' c0); [now right|exact Hc0]|exact Hres|exact H].
+    + apply IH; [intros k' c0 Hk' Hc0; apply (Hks k' c0); [now right|exact Hc0]|exact Hres].
 Qed.
 
 Lemma group_keys_text e d k c0 :
@@ -136,47 +138,20 @@ Proof.
 Qed.
 
 (* the loop over the descriptor types *)
-Lemma certs_any_abs P num use e : inj_on P num -> (forall c, entity_text e c -> P c) -> forall ds l,
-  MS.certs_any use e ds = Ok l ->
-  flat_map (fun r => CS.extract_certs use r []) (map (abs_group num e) ds) = map num l.
+Lemma certs_any_abs P num use e : inj_on P num -> (forall c, entity_text e c -> P c) -> forall ds,
+  flat_map (fun r => CS.extract_certs use r []) (map (abs_group num e) ds) = map num (MS.certs_any use e ds).
 Proof.
-  intros Hinj HP. induction ds as [|d ds IH]; intros l H; cbn [MS.certs_any map flat_map] in *.
-  - now injection H as <-.
+  intros Hinj HP. induction ds as [|d ds IH]; cbn [MS.certs_any map flat_map] in *.
+  - reflexivity.
   - unfold abs_group at 1. destruct (MS.roles_of e (MS.descr_key d)) as [|r0 rs] eqn:Er.
-    + cbn [flat_map map CS.extract_certs app]. now apply IH.
-    + rewrite <- Er in *. destruct (MS.extract_certs use (MS.roles_of e (MS.descr_key d))) as [l1|x] eqn:E1; [|discriminate].
-      destruct (MS.certs_any use e ds) as [l2|x] eqn:E2; [|discriminate]. injection H as <-.
-      unfold MS.extract_certs in E1.
-      assert (CS.extract_certs use (map (abs_kd num) (flat_map MS.r_keys (MS.roles_of e (MS.descr_key d)))) (map num []) = map num l1) as Hx.
-      { apply (extract_loop_abs P num use Hinj _ [] l1); [|intros x []|exact E1].
+    + cbn [flat_map map CS.extract_certs app]. exact IH.
+    + rewrite <- Er in *. unfold MS.extract_certs.
+      assert (CS.extract_certs use (map (abs_kd num) (flat_map MS.r_keys (MS.roles_of e (MS.descr_key d)))) (map num []) =
+              map num (MS.extract_loop use (flat_map MS.r_keys (MS.roles_of e (MS.descr_key d))) [])) as Hx.
+      { apply (extract_loop_abs P num use Hinj _ []); [|intros x []].
         intros k c0 Hk Hc. apply HP. exact (group_keys_text _ _ _ _ Hk Hc). }
       cbn [map] in Hx. rewrite Hx.
-      rewrite map_app. f_equal. now apply IH.
-Qed.
-
-(* when does the loop raise: only through a use-matching key descriptor without X509Data *)
-Lemma certs_any_err use e : forall ds x,
-  MS.certs_any use e ds = Err x ->
-  x = MS.KeyError /\ exists d r k, In d ds /\ In r (MS.e_roles e) /\ MS.r_type r = MS.descr_key d /\
-                                   In k (MS.r_keys r) /\ MS.use_ok use k = true /\ MS.kd_certs k = [].
-Proof.
-  induction ds as [|d ds IH]; intros x H; cbn [MS.certs_any] in H; [discriminate|].
-  destruct (MS.roles_of e (MS.descr_key d)) as [|r0 rs] eqn:Er.
-  - destruct (IH _ H) as (-> & d' & r & k & Hd & Hr). split; [reflexivity|]. exists d', r, k. split; [now right|exact Hr].
-  - rewrite <- Er in H. destruct (MS.extract_certs use (MS.roles_of e (MS.descr_key d))) as [l1|y] eqn:E1.
-    + destruct (MS.certs_any use e ds) as [l2|y] eqn:E2; [discriminate|]. injection H as <-.
-      destruct (IH _ eq_refl) as (-> & d' & r & k & Hd & Hr). split; [reflexivity|]. exists d', r, k. split; [now right|exact Hr].
-    + injection H as <-. apply MSL.extract_certs_err in E1 as (-> & r & k & Hr & Hk & Hu & Hc).
-      apply MSL.roles_of_In in Hr as [Hr Ht]. split; [reflexivity|]. exists d, r, k. repeat split; auto. now left.
-Qed.
-
-Lemma certs_any_complete use e ds :
-  (forall d r k, In d ds -> In r (MS.e_roles e) -> MS.r_type r = MS.descr_key d -> In k (MS.r_keys r) ->
-                 MS.use_ok use k = true -> MS.kd_certs k <> []) ->
-  exists l, MS.certs_any use e ds = Ok l.
-Proof.
-  intros H. destruct (MS.certs_any use e ds) as [l|x] eqn:E; [now exists l|].
-  apply certs_any_err in E as (_ & d & r & k & Hd & Hr & Ht & Hk & Hu & Hc). exfalso. exact (H d r k Hd Hr Ht Hk Hu Hc).
+      rewrite map_app. f_equal. exact IH.
 Qed.
 
 (* ------------------------------------------------------------------ *)
@@ -186,25 +161,37 @@ Definition ANY : str := s2l "any".
 
 Lemma store_certs_any st i use :
   MS.store_certs st i ANY use =
-  match MS.store_get st i with None => Err MS.KeyError | Some e => MS.certs_any use e MS.ANY_ROLES end.
+  match MS.store_get st i with None => Err MS.KeyError | Some e => Ok (MS.certs_any use e MS.ANY_ROLES) end.
 Proof. unfold MS.store_certs. destruct (MS.store_get st i); reflexivity. Qed.
+
+Lemma store_certs_before_fix_any st i use :
+  MS.store_certs_before_fix st i ANY use =
+  match MS.store_get st i with None => Err MS.KeyError | Some e => MS.certs_any_before_fix use e MS.ANY_ROLES end.
+Proof. unfold MS.store_certs_before_fix. destruct (MS.store_get st i); reflexivity. Qed.
 
 Lemma md_certs_abs num st i use :
   CS.md_certs (abs_store num st) (Some i) use =
   option_map (fun e => flat_map (fun r => CS.extract_certs use r []) (abs_entity num e)) (MS.store_get st i).
 Proof. unfold CS.md_certs. rewrite find_entity_abs_store. destruct (MS.store_get st i); reflexivity. Qed.
 
-(* store_certs answers => md_certs gives the same certificates, in the same order, with the same duplicates dropped *)
+(* the two models of MetaData.certs are ONE function: same certificates, in the same order, with the same duplicates
+   dropped; KeyError there = None here.  No condition on the metadata (num injective on the served entity's texts). *)
+Theorem md_certs_eq num st i use :
+  inj_on (served_text st i) num ->
+  CS.md_certs (abs_store num st) (Some i) use =
+  match MS.store_certs st i ANY use with Ok l => Some (map num l) | Err _ => None end.
+Proof.
+  intros Hinj. rewrite store_certs_any, md_certs_abs.
+  destruct (MS.store_get st i) as [e|] eqn:Eg; [|reflexivity]. cbn [option_map]. f_equal. unfold abs_entity.
+  apply (certs_any_abs (served_text st i) num use e Hinj).
+  intros c Hc. exists e. split; [exact Eg|exact Hc].
+Qed.
+
 Theorem md_certs_agree num st i use l :
   inj_on (served_text st i) num ->
   MS.store_certs st i ANY use = Ok l ->
   CS.md_certs (abs_store num st) (Some i) use = Some (map num l).
-Proof.
-  intros Hinj H. rewrite store_certs_any in H. rewrite md_certs_abs.
-  destruct (MS.store_get st i) as [e|] eqn:Eg; [|discriminate]. cbn [option_map]. f_equal. unfold abs_entity.
-  apply (certs_any_abs (served_text st i) num use e Hinj); [|exact H].
-  intros c Hc. exists e. split; [exact Eg|exact Hc].
-Qed.
+Proof. intros Hinj H. rewrite (md_certs_eq num st i use Hinj), H. reflexivity. Qed.
 
 (* unknown entity: KeyError there, None here; and md_certs is None ONLY then *)
 Theorem md_certs_unknown num st i use :
@@ -214,33 +201,44 @@ Proof.
   rewrite store_certs_any, md_certs_abs. destruct (MS.store_get st i) as [e|]; cbn [option_map]; split; try discriminate; auto.
 Qed.
 
-(* the remaining case, exactly: store_certs raises KeyError because a use-matching key descriptor of the served
-   entity (in a role descriptor certs() visits) has no X509Data, while md_certs skips that descriptor and answers *)
+(* certs(.., any, ..) raises for an unknown entity only - and then md_certs says None *)
 Theorem md_certs_keyerror num st i use x :
   MS.store_certs st i ANY use = Err x ->
+  x = MS.KeyError /\ MS.store_get st i = None /\ CS.md_certs (abs_store num st) (Some i) use = None.
+Proof.
+  intros H. rewrite store_certs_any in H. rewrite md_certs_abs. destruct (MS.store_get st i) as [e|]; [discriminate|].
+  split; [congruence|]. split; reflexivity.
+Qed.
+
+(* BEFORE proposed_fix/C03-1: certs() raised KeyError in one more case, exactly: a use-matching key descriptor of the
+   served entity (in a role descriptor certs() visits) has no X509Data - while the declared certificates (md_certs:
+   what the repaired code returns) exist *)
+Theorem md_certs_before_fix_keyerror num st i use x :
+  MS.store_certs_before_fix st i ANY use = Err x ->
   x = MS.KeyError /\
   (MS.store_get st i = None \/
    exists e r k, MS.store_get st i = Some e /\ In r (MS.e_roles e) /\ any_role r /\ In k (MS.r_keys r) /\
                  MS.use_ok use k = true /\ MS.kd_certs k = [] /\
                  exists l', CS.md_certs (abs_store num st) (Some i) use = Some l').
 Proof.
-  intros H. rewrite store_certs_any in H. rewrite md_certs_abs. destruct (MS.store_get st i) as [e|].
-  - apply certs_any_err in H as (-> & d & r & k & Hd & Hr & Ht & Hk & Hu & Hc). split; [reflexivity|]. right.
+  intros H. rewrite store_certs_before_fix_any in H. rewrite md_certs_abs. destruct (MS.store_get st i) as [e|].
+  - pose proof (MSL.certs_any_before_fix_char use e MS.ANY_ROLES) as C. rewrite H in C.
+    destruct C as (-> & d & r & k & Hd & Hr & Hk & Hu & Hc). apply MSL.roles_of_In in Hr as [Hr Ht].
+    split; [reflexivity|]. right.
     exists e, r, k. repeat split; auto; [now exists d|]. cbn [option_map]. eexists. reflexivity.
-  - injection H as <-. split; [reflexivity|now left].
+  - split; [congruence|now left].
 Qed.
 
-(* under the X509Data side condition the two functions are the same function *)
-Theorem md_certs_eq num st i use :
-  inj_on (served_text st i) num -> x509_complete use st i ->
-  CS.md_certs (abs_store num st) (Some i) use =
-  match MS.store_certs st i ANY use with Ok l => Some (map num l) | Err _ => None end.
+(* under the X509Data side condition the repair changes nothing *)
+Theorem store_certs_before_fix_complete st i use :
+  x509_complete use st i -> MS.store_certs_before_fix st i ANY use = MS.store_certs st i ANY use.
 Proof.
-  intros Hinj Hx. destruct (MS.store_certs st i ANY use) as [l|x] eqn:E.
-  - now apply md_certs_agree.
-  - destruct (md_certs_keyerror num st i use x E) as (_ & [Hn|(e & r & k & He & Hr & Ha & Hk & Hu & Hc & _)]).
-    + now apply md_certs_unknown.
-    + exfalso. exact (Hx e r k He Hr Ha Hk Hu Hc).
+  intros Hx. pose proof (MSL.store_certs_before_fix_char st i ANY use) as C.
+  destruct (MS.store_certs_before_fix st i ANY use) as [l|x] eqn:E; [now symmetry|].
+  destruct C as (-> & [C|(e & r & k & He & Hr & Hk & Hu & Hc)]); [now symmetry|].
+  destruct (md_certs_before_fix_keyerror (fun _ => 0) st i use _ E) as (_ & [Hn|(e' & r' & k' & He' & Hr' & Ha & Hk' & Hu' & Hc' & _)]).
+  - rewrite He in Hn. discriminate.
+  - exfalso. exact (Hx e' r' k' He' Hr' Ha Hk' Hu' Hc').
 Qed.
 
 (* what md_certs of an abstracted store contains, in the C16 vocabulary - no side condition *)
@@ -267,12 +265,19 @@ Qed.
 (* ------------------------------------------------------------------ *)
 (* _check_signature over the C16 store                                 *)
 (* ------------------------------------------------------------------ *)
-(* self.metadata.certs(_issuer, any, use) as _check_signature sees it: a KeyError (unknown entity, no issuer, a
-   key descriptor without X509Data) is caught and means no certificates *)
+(* self.metadata.certs(_issuer, any, use) as _check_signature sees it: a KeyError (unknown entity, no issuer) is
+   caught and means no certificates *)
 Definition store_md_certs (num : str -> N) (st : MS.store) (issuer : option str) (use : str) : option (list N) :=
   match issuer with
   | None => None
   | Some i => match MS.store_certs st i ANY use with Ok l => Some (map num l) | Err _ => None end
+  end.
+
+(* ... and before proposed_fix/C03-1: the KeyError for a key descriptor without X509Data was swallowed the same way *)
+Definition store_md_certs_before_fix (num : str -> N) (st : MS.store) (issuer : option str) (use : str) : option (list N) :=
+  match issuer with
+  | None => None
+  | Some i => match MS.store_certs_before_fix st i ANY use with Ok l => Some (map num l) | Err _ => None end
   end.
 
 (* CertSelect.candidate_certs / check_signature with the metadata answer as a parameter *)
@@ -299,6 +304,9 @@ Definition store_candidate_certs num mp st issuer only_md embedded : result (lis
 Definition store_check_signature num mp st issuer only_md embedded signer : result unit :=
   check_of mp (store_md_certs num st issuer CS.SIGNING) only_md embedded signer.
 
+Definition store_check_signature_before_fix num mp st issuer only_md embedded signer : result unit :=
+  check_of mp (store_md_certs_before_fix num st issuer CS.SIGNING) only_md embedded signer.
+
 Lemma check_of_spec mp from only_md embedded signer :
   check_of mp from only_md embedded signer =
   match candidates_of mp from only_md embedded with
@@ -311,14 +319,14 @@ Proof.
 Qed.
 
 Theorem store_check_agrees num mp st issuer only_md embedded signer :
-  (forall i, issuer = Some i -> inj_on (served_text st i) num /\ x509_complete CS.SIGNING st i) ->
+  (forall i, issuer = Some i -> inj_on (served_text st i) num) ->
   store_candidate_certs num mp st issuer only_md embedded = CS.candidate_certs mp (abs_store num st) issuer only_md embedded /\
   store_check_signature num mp st issuer only_md embedded signer = CS.check_signature mp (abs_store num st) issuer only_md embedded signer.
 Proof.
   intros H. rewrite candidate_certs_of, check_signature_of. unfold store_candidate_certs, store_check_signature.
   assert (store_md_certs num st issuer CS.SIGNING = CS.md_certs (abs_store num st) issuer CS.SIGNING) as ->; [|now split].
-  destruct issuer as [i|]; [|reflexivity]. destruct (H i eq_refl) as [Hinj Hx]. cbn [store_md_certs].
-  symmetry. now apply md_certs_eq.
+  destruct issuer as [i|]; [|reflexivity]. cbn [store_md_certs].
+  symmetry. apply md_certs_eq. now apply H.
 Qed.
 
 (* ---- C03 carried down to the C16 store ---- *)
@@ -358,7 +366,8 @@ Proof.
   destruct (map num l) as [|c0 l'] eqn:El; [discriminate|]. destruct (CS.memN signer (c0 :: l')) eqn:M; [|discriminate].
   apply CSL.memN_In in M. rewrite <- El in M. apply in_map_iff in M as (c & <- & Hc).
   rewrite store_certs_any in Ec. destruct (MS.store_get st i) as [e|] eqn:He; [|discriminate].
-  apply (MSL.certs_any_ok _ _ _ _ Ec) in Hc as (d & Hd & (r & k & c1 & Hr & Hk & Hu & Hc1 & ->)).
+  apply MSL.Ok_inj in Ec. subst l.
+  apply MSL.certs_any_ok in Hc as (d & Hd & (r & k & c1 & Hr & Hk & Hu & Hc1 & ->)).
   apply MSL.roles_of_In in Hr as [Hr Ht].
   exists i. split; [reflexivity|]. exists e, r, k, c1. repeat split; auto; [now exists d|now apply use_ok_signing].
 Qed.
@@ -481,6 +490,17 @@ Corollary md_certs_agree_canonical st i use l :
   CS.md_certs (abs_store (num_of (store_texts st)) st) (Some i) use = Some (map (num_of (store_texts st)) l).
 Proof. apply md_certs_agree. apply num_of_store_inj. Qed.
 
+Corollary md_certs_eq_canonical st i use :
+  CS.md_certs (abs_store (num_of (store_texts st)) st) (Some i) use =
+  match MS.store_certs st i ANY use with Ok l => Some (map (num_of (store_texts st)) l) | Err _ => None end.
+Proof. apply md_certs_eq. apply num_of_store_inj. Qed.
+
+Corollary store_check_agrees_canonical mp st issuer only_md embedded signer :
+  let num := num_of (store_texts st) in
+  store_candidate_certs num mp st issuer only_md embedded = CS.candidate_certs mp (abs_store num st) issuer only_md embedded /\
+  store_check_signature num mp st issuer only_md embedded signer = CS.check_signature mp (abs_store num st) issuer only_md embedded signer.
+Proof. cbv zeta. apply store_check_agrees. intros i _. apply num_of_store_inj. Qed.
+
 (* ------------------------------------------------------------------ *)
 (* use = encryption: Model/EncryptMd.v (C17) reads the same function   *)
 (* ------------------------------------------------------------------ *)
@@ -541,26 +561,33 @@ Definition abs_entity_per_descriptor (num : str -> N) (e : MS.entity) : CS.entit
 Example per_descriptor_grouping_differs :
   flat_map (fun r => CS.extract_certs CS.SIGNING r []) (abs_entity_per_descriptor ex_num ex_A) = [1; 2; 1; 3; 1] /\
   flat_map (fun r => CS.extract_certs CS.SIGNING r []) (abs_entity ex_num ex_A) = [1; 2; 3; 1] /\
-  MS.certs_any MS.U_SIGNING ex_A MS.ANY_ROLES = Ok [cert_a; cert_b; cert_c; cert_a].
+  MS.certs_any MS.U_SIGNING ex_A MS.ANY_ROLES = [cert_a; cert_b; cert_c; cert_a].
 Proof. vm_compute. repeat split; reflexivity. Qed.
 
-(* THE DISAGREEMENT.  A signing key descriptor with a certificate, then a signing key descriptor whose KeyInfo has no
-   X509Data (a KeyName only).  MetaData.certs raises KeyError (Model/MdStore.v; the library does: probe in
-   docs/Glue.md), _check_signature swallows it into "no certificates from metadata".  Model/CertSelect.v skips the
-   descriptor and keeps certificate 1.  Consequences, both confirmed on the library:
-     only_use_keys_in_metadata on : a response signed with the DECLARED key 1 is refused with MissingKey
-                                    (CertSelect: accepted);
-     only_use_keys_in_metadata off: a response signed with ANY key whose certificate is embedded is accepted
-                                    (CertSelect: SignatureError, because metadata has a key for the issuer). *)
+(* THE FORMER DISAGREEMENT (now the effect of proposed_fix/C03-1).  A signing key descriptor with a certificate, then a
+   signing key descriptor whose KeyInfo has no X509Data (a KeyName only).  Before the repair MetaData.certs raised
+   KeyError (store_certs_before_fix; /repo without the diff does: harness/glue_probe.py), _check_signature swallowed it
+   into "no certificates from metadata".  With the repair the descriptor is skipped and certificate 1 stays - in BOTH
+   models.  Consequences before the repair, both confirmed on the unpatched library:
+     only_use_keys_in_metadata on : a response signed with the DECLARED key 1 was refused with MissingKey
+                                    (now: accepted);
+     only_use_keys_in_metadata off: a response signed with ANY key whose certificate is embedded was accepted
+                                    (now: SignatureError, because metadata has a key for the issuer). *)
 Definition ex_bad : MS.store :=
   [(s2l "1", [(s2l "A", ex_entity (s2l "A")
      [ex_role MS.T_IDP [MS.Build_keydesc (Some MS.U_SIGNING) [cert_a]; MS.Build_keydesc (Some MS.U_SIGNING) []]])])].
-Theorem md_certs_keyerror_disagreement :
-  MS.store_certs ex_bad (s2l "A") ANY MS.U_SIGNING = Err MS.KeyError /\
+Theorem md_certs_before_fix_witness :
+  MS.store_certs_before_fix ex_bad (s2l "A") ANY MS.U_SIGNING = Err MS.KeyError /\
+  MS.store_certs ex_bad (s2l "A") ANY MS.U_SIGNING = Ok [cert_a] /\
   CS.md_certs (abs_store ex_num ex_bad) (Some (s2l "A")) CS.SIGNING = Some [1] /\
-  store_check_signature ex_num true ex_bad (Some (s2l "A")) true [1] 1 = Err (s2l "MissingKey") /\
+  CS.md_certs_before_fix (abs_store ex_num ex_bad) (Some (s2l "A")) CS.SIGNING = None /\
+  store_check_signature_before_fix ex_num true ex_bad (Some (s2l "A")) true [1] 1 = Err (s2l "MissingKey") /\
+  CS.check_signature_before_fix true (abs_store ex_num ex_bad) (Some (s2l "A")) true [1] 1 = Err (s2l "MissingKey") /\
+  store_check_signature ex_num true ex_bad (Some (s2l "A")) true [1] 1 = Ok tt /\
   CS.check_signature true (abs_store ex_num ex_bad) (Some (s2l "A")) true [1] 1 = Ok tt /\
-  store_check_signature ex_num true ex_bad (Some (s2l "A")) false [9] 9 = Ok tt /\
+  store_check_signature_before_fix ex_num true ex_bad (Some (s2l "A")) false [9] 9 = Ok tt /\
+  CS.check_signature_before_fix true (abs_store ex_num ex_bad) (Some (s2l "A")) false [9] 9 = Ok tt /\
+  store_check_signature ex_num true ex_bad (Some (s2l "A")) false [9] 9 = Err (s2l "SignatureError") /\
   CS.check_signature true (abs_store ex_num ex_bad) (Some (s2l "A")) false [9] 9 = Err (s2l "SignatureError").
 Proof. vm_compute. repeat split; reflexivity. Qed.
 
